@@ -28,6 +28,9 @@ bool file_content_matches_c(const char *a, const char *b) { return nondet_bool()
 FILE *fopen(const char *path, const char *mode) { return 0; }
 int fclose(FILE *f) { return nondet_int(); }
 int ferror(FILE *f) { return nondet_int(); }
+int fflush(FILE *f) { return nondet_int(); }
+int fileno(FILE *f) { return nondet_int(); }
+int fsync(int fd) { return nondet_int(); }
 int rename(const char *a, const char *b) { return nondet_int(); }
 int unlink(const char *a) { return nondet_int(); }
 int utime(const char *a, struct utimbuf *b) { return nondet_int(); }
